@@ -253,68 +253,93 @@ theorem lookupAll_out (sem : Sem) (frm loc frn as : String) :
 
 /-! ### `$unwind` -/
 
-theorem unwindFold_win {b : Nat} (key : String) (doc : HV) :
-    ∀ (items : Kids) (acc : List HV × Nat), b ≤ acc.2 → allL (inR b acc.2) acc.1 = true →
-      doc.all (inR b acc.2) = true → allKids (inR b acc.2) items = true →
-      acc.2 ≤ (items.foldl (fun acc kv =>
-          ((acc.1 ++ [((Dr.unwindDoc.run doc acc.2).1).setLocal key kv.2], (Dr.unwindDoc.run doc acc.2).2)
-            : List HV × Nat)) acc).2 ∧
-      allL (inR b (items.foldl (fun acc kv =>
-          ((acc.1 ++ [((Dr.unwindDoc.run doc acc.2).1).setLocal key kv.2], (Dr.unwindDoc.run doc acc.2).2)
-            : List HV × Nat)) acc).2)
-        (items.foldl (fun acc kv =>
-          ((acc.1 ++ [((Dr.unwindDoc.run doc acc.2).1).setLocal key kv.2], (Dr.unwindDoc.run doc acc.2).2)
-            : List HV × Nat)) acc).1 = true
-  | [], acc, _, hl, _, _ => by simpa using hl
-  | (k, x) :: r, acc, hb, hl, hd, hi => by
-    simp only [List.foldl_cons]
-    simp only [allKids, Bool.and_eq_true] at hi
-    have hc := deepTmp_win (b := b) doc acc.2 hb
-    have hm : ∀ i, inR b acc.2 i = true → inR b (deepTmp doc acc.2).2 i = true :=
-      fun i hi => inR_mono (Nat.le_refl _) hc.1 i hi
-    have ih := unwindFold_win key doc r
-      (acc.1 ++ [((Dr.unwindDoc.run doc acc.2).1).setLocal key x], (Dr.unwindDoc.run doc acc.2).2)
-      (Nat.le_trans hb hc.1)
-      (by
-        rw [allL_append]
-        simp only [allL, Bool.and_true, Bool.and_eq_true]
-        exact ⟨allL_mono hm _ hl, all_setLocal key _ x hc.2 (all_mono hm _ hi.1)⟩)
-      (all_mono hm _ hd)
-      (allKids_mono hm _ hi.2)
-    exact ⟨Nat.le_trans hc.1 ih.1, ih.2⟩
+theorem dr_unwindDoc : Dr.unwindDoc = .deep := rfl
+theorem dr_unwindIndexed : Dr.unwindIndexed = .deep := rfl
+theorem dr_indexPrivate : Dr.indexPrivate = true := rfl
 
-theorem unwindDoc_win {b : Nat} (key : String) (preserve : Bool) (doc : HV) (n : Nat)
+theorem setIndex_win {b : Nat} (idx : Option (List String)) (v : Val) (x : HV) (n : Nat)
+    (hb : b ≤ n) (hx : x.all (inR b n) = true) :
+    n ≤ (setIndex idx v x n).2 ∧ (setIndex idx v x n).1.all (inR b (setIndex idx v x n).2) = true := by
+  cases idx with
+  | none => exact ⟨Nat.le_refl _, hx⟩
+  | some p => exact setPathCopy_win (b := b) .none (.atom v) p x n hb hx (by simp [HV.all])
+
+theorem keptDoc_win {b : Nat} (idx : Option (List String)) (doc : HV) (n : Nat)
     (hb : b ≤ n) (hd : doc.all (inR b n) = true) :
-    n ≤ (unwindDoc Dr key preserve doc n).2 ∧
-      allL (inR b (unwindDoc Dr key preserve doc n).2) (unwindDoc Dr key preserve doc n).1 = true := by
+    n ≤ (keptDoc Dr idx doc n).2 ∧ (keptDoc Dr idx doc n).1.all (inR b (keptDoc Dr idx doc n).2) = true := by
+  cases idx with
+  | none => exact ⟨Nat.le_refl _, hd⟩
+  | some p =>
+    simp only [keptDoc, dr_unwindIndexed, Copy.run]
+    have hc := deepTmp_win (b := b) doc n hb
+    have hp := setPathCopy_win (b := b) .none (.atom .null) p (deepTmp doc n).1 (deepTmp doc n).2
+      (Nat.le_trans hb hc.1) hc.2 (by simp [HV.all])
+    exact ⟨Nat.le_trans hc.1 hp.1, hp.2⟩
+
+theorem unwindItems_win {b : Nat} (key : String) (idx : Option (List String)) (doc : HV) :
+    ∀ (items : Kids) (i n : Nat), b ≤ n → doc.all (inR b n) = true → allKids (inR b n) items = true →
+      n ≤ (unwindItems Dr key idx doc items i n).2 ∧
+      allL (inR b (unwindItems Dr key idx doc items i n).2) (unwindItems Dr key idx doc items i n).1 = true
+  | [], _, n, _, _, _ => by simp [unwindItems, allL]
+  | (k, x) :: r, i, n, hb, hd, hi => by
+    simp only [allKids, Bool.and_eq_true] at hi
+    simp only [unwindItems, dr_unwindDoc, Copy.run]
+    have hc := deepTmp_win (b := b) doc n hb
+    have hm : ∀ q, inR b n q = true → inR b (deepTmp doc n).2 q = true :=
+      fun q hq => inR_mono (Nat.le_refl _) hc.1 q hq
+    have hs := setIndex_win (b := b) idx (.int i) ((deepTmp doc n).1.setLocal key x) (deepTmp doc n).2
+      (Nat.le_trans hb hc.1) (all_setLocal key _ x hc.2 (all_mono hm _ hi.1))
+    have hm2 : ∀ q, inR b n q = true →
+        inR b (setIndex idx (.int i) ((deepTmp doc n).1.setLocal key x) (deepTmp doc n).2).2 q = true :=
+      fun q hq => inR_mono (Nat.le_refl _) (Nat.le_trans hc.1 hs.1) q hq
+    have ih := unwindItems_win key idx doc r (i + 1)
+      (setIndex idx (.int i) ((deepTmp doc n).1.setLocal key x) (deepTmp doc n).2).2
+      (Nat.le_trans hb (Nat.le_trans hc.1 hs.1)) (all_mono hm2 _ hd) (allKids_mono hm2 _ hi.2)
+    simp only [allL, Bool.and_eq_true]
+    exact ⟨Nat.le_trans (Nat.le_trans hc.1 hs.1) ih.1,
+      all_mono (fun q hq => inR_mono (Nat.le_refl _) ih.1 q hq) _ hs.2, ih.2⟩
+
+theorem unwindDoc_win {b : Nat} (key : String) (preserve : Bool) (idx : Option (List String))
+    (doc : HV) (n : Nat) (hb : b ≤ n) (hd : doc.all (inR b n) = true) :
+    n ≤ (unwindDoc Dr key preserve idx doc n).2 ∧
+      allL (inR b (unwindDoc Dr key preserve idx doc n).2) (unwindDoc Dr key preserve idx doc n).1 = true := by
   have hc := deepTmp_win (b := b) doc n hb
+  have hk := keptDoc_win (b := b) idx doc n hb hd
   unfold unwindDoc
   split
-  · split <;> simp [allL, hd]
-  · split <;> simp [allL, hd]
   · split
-    · simp only [Dr, Disc.reference, Copy.run, allL, Bool.and_true]
-      exact ⟨hc.1, all_delLocal key _ hc.2⟩
+    · simp only [allL, Bool.and_true]; exact hk
+    · simp [allL]
+  · split
+    · simp only [allL, Bool.and_true]; exact hk
+    · simp [allL]
+  · split
+    · simp only [dr_unwindDoc, Copy.run, allL, Bool.and_true]
+      have hk2 := keptDoc_win (b := b) idx ((deepTmp doc n).1.delLocal key) (deepTmp doc n).2
+        (Nat.le_trans hb hc.1) (all_delLocal key _ hc.2)
+      exact ⟨Nat.le_trans hc.1 hk2.1, hk2.2⟩
     · simp [allL]
   · next items hne hg =>
     have hit := all_get key doc _ hd hg
     simp only [HV.all, Bool.and_eq_true] at hit
-    exact unwindFold_win (b := b) key doc items ([], n) hb (by simp [allL]) hd hit.2
+    exact unwindItems_win (b := b) key idx doc items 0 n hb hd hit.2
   · next other hn1 hn2 hn3 hg =>
     have hit := all_get key doc _ hd hg
-    simp only [Dr, Disc.reference, Copy.run, allL, Bool.and_true]
-    exact ⟨hc.1, all_setLocal key _ other hc.2
-      (all_mono (fun i hi => inR_mono (Nat.le_refl _) hc.1 i hi) _ hit)⟩
+    simp only [dr_unwindDoc, Copy.run, allL, Bool.and_true]
+    have hs := setIndex_win (b := b) idx .null ((deepTmp doc n).1.setLocal key other) (deepTmp doc n).2
+      (Nat.le_trans hb hc.1) (all_setLocal key _ other hc.2
+        (all_mono (fun q hq => inR_mono (Nat.le_refl _) hc.1 q hq) _ hit))
+    exact ⟨Nat.le_trans hc.1 hs.1, hs.2⟩
 
-theorem unwindAll_win {b : Nat} (key : String) (preserve : Bool) : ∀ (l : List HV) (n : Nat),
+theorem unwindAll_win {b : Nat} (key : String) (preserve : Bool) (idx : Option (List String)) : ∀ (l : List HV) (n : Nat),
     b ≤ n → allL (inR b n) l = true →
-    n ≤ (unwindAll Dr key preserve l n).2 ∧
-      allL (inR b (unwindAll Dr key preserve l n).2) (unwindAll Dr key preserve l n).1 = true
+    n ≤ (unwindAll Dr key preserve idx l n).2 ∧
+      allL (inR b (unwindAll Dr key preserve idx l n).2) (unwindAll Dr key preserve idx l n).1 = true
   | [], n, _, _ => by simp [unwindAll, allL]
   | d :: r, n, hb, hl => by
     simp only [allL, Bool.and_eq_true] at hl
-    have h1 := unwindDoc_win (b := b) key preserve d n hb hl.1
-    have h2 := unwindAll_win key preserve r (unwindDoc Dr key preserve d n).2 (by omega)
+    have h1 := unwindDoc_win (b := b) key preserve idx d n hb hl.1
+    have h2 := unwindAll_win key preserve idx r (unwindDoc Dr key preserve idx d n).2 (by omega)
       (allL_mono (fun i hi => inR_mono (Nat.le_refl _) h1.1 i hi) _ hl.2)
     simp only [unwindAll]
     rw [allL_append]
@@ -505,13 +530,15 @@ mutual
         have h1 := projectAll_win (b := b) w.pipe noId incl computed w.work w.nextTmp vs n h.hb h.work hp
         exact ⟨h.setWork vs n h1.1 h1.2, ho⟩
       · cases hs
-    | .unwind key preserve, b, w, w', h, ho, _, hs => by
+    | .unwind key preserve idx, b, w, w', h, ho, _, hs => by
       simp only [runStage] at hs
       split at hs
       · cases hs
-      · cases hs
-        have h1 := unwindAll_win (b := b) key preserve w.work w.nextTmp h.hb h.work
-        exact ⟨h.setWork _ _ h1.1 h1.2, ho⟩
+      · split at hs
+        · cases hs
+        · cases hs
+          have h1 := unwindAll_win (b := b) key preserve idx w.work w.nextTmp h.hb h.work
+          exact ⟨h.setWork _ _ h1.1 h1.2, ho⟩
     | .lookup frm loc frn as, b, w, w', h, ho, _, hs => by
       simp only [runStage] at hs
       have s1 := lookupAll_step (b := b) sem frm loc frn as _ w 0 w' h hs
